@@ -443,7 +443,16 @@ class Executor:
 
     # -- running a body: generator of Outcome
     def run(self, body, args, pc, store, depth=0):
-        if depth > self.max_depth:
+        # `depth` counts call frames; a task may also watch the nesting of one recursive function (recursion_watch = (regex, limit)):
+        # each entry into a watched body adds 1000, so depth // 1000 is the number of its activations on the current path's call stack
+        # and exceeding the limit is an *outcome* of the path (native recursion that outgrows every acyclic input of the shape)
+        watch = getattr(self, "recursion_watch", None)
+        if watch is not None and re.search(watch[0], body.name):
+            depth += 1000
+            if depth // 1000 > watch[1]:
+                yield Outcome("panic", pc, store, msg="__DEPTH__ more than %d nested activations of %s" % (watch[1], body.name))
+                return
+        if depth % 1000 > self.max_depth:
             raise Unsupported("call depth exceeded in " + body.name)
         frame = {}
         for (p, _t), a in zip(body.params, args):
@@ -1725,7 +1734,11 @@ def m_str_len(ex, callee, args, pc, store, depth):
     if z3.is_string_value(sv):
         yield ("value", BV(z3.BitVecVal(len(sv.as_string().encode("utf-8")), 64), 64, False), pc, store)  # byte length
     else:
-        yield ("value", BV(z3.Int2BV(z3.Length(v.t), 64), 64, False), pc, store)
+        n = z3.simplify(z3.Length(v.t))     # a string built from a concrete number of symbolic characters has a concrete length
+        if z3.is_int_value(n):
+            yield ("value", BV(z3.BitVecVal(n.as_long(), 64), 64, False), pc, store)
+        else:
+            yield ("value", BV(z3.Int2BV(z3.Length(v.t), 64), 64, False), pc, store)
 
 
 SIZEOF = {}
@@ -1974,6 +1987,22 @@ def m_iter_any_all(ex, callee, args, pc, store, depth):
                 else:
                     yield from go(k + 1, pcy, sty)
         yield from go(0, pc0, st0)
+
+
+@MODELS.add(r"Option::<.*>::filter::<")
+def m_option_filter(ex, callee, args, pc, store, depth):
+    """Option::filter: None stays None; Some(x) stays Some(x) exactly when the predicate holds of &x (forks on a symbolic verdict)."""
+    o, f = args[0], args[1]
+    if not isinstance(o, Enum) or not isinstance(o.disc, int):
+        raise Unsupported("Option::filter on %r" % (o,))
+    if o.disc == 0:
+        yield ("value", o, pc, store)
+        return
+    for verdict, pcy, sty in _predicate_fork(ex, f, Ref(o.payload[1][0]), pc, store, depth):
+        if isinstance(verdict, tuple):
+            yield (verdict[0], verdict[1], pcy, sty)
+        else:
+            yield ("value", o if verdict else NONE, pcy, sty)
 
 
 @MODELS.add(r"Result::<.*>::map_or::<")
